@@ -1,10 +1,11 @@
 (* Extraction of the C05 model for the correspondence check. ExtrOcamlBasic only. *)
 From V.lib Require Import Base.
-From V.c05 Require Import C05Model C05FragModel.
+From V.c05 Require Import C05Model C05FragModel C05CodecModel.
 Require Import ExtrOcamlBasic.
 Separate Extraction
   nat sample fullsample trun tfhd trex
   optimize optimize_pinned wire_trun resolve total_dur create_trun create_tfhd
   tfdt traf mdat frag op oclass dfrag
   create_fragment create_multi with_extras step run_ops encode_frag encoded_len moof_size md_header_size
-  set_offsets decoded_view get_full_samples.
+  set_offsets decoded_view get_full_samples
+  rd32 enc_trun enc_tfhd dec_trun dec_tfhd.
